@@ -10,6 +10,7 @@ import (
 	"github.com/ipfs/go-cid"
 
 	"github.com/ucan-wg/go-ucan/did"
+	"github.com/ucan-wg/go-ucan/pkg/args"
 	"github.com/ucan-wg/go-ucan/pkg/command"
 	"github.com/ucan-wg/go-ucan/pkg/meta"
 	"github.com/ucan-wg/go-ucan/token"
@@ -491,6 +492,25 @@ func AccessorIssues(t token.Token) []string {
 		if err := c.Add("\x00 extra \x00", 1); err == nil && a.Equals(c.ReadOnly()) {
 			issues = append(issues, "Arguments.Equals(clone + one entry) = true")
 		}
+		// same number of entries, one value changed / one key renamed
+		for variant := 0; variant < 2; variant++ {
+			o := args.New()
+			i := 0
+			for k, n := range a.Iter() {
+				switch {
+				case i == 0 && variant == 0:
+					_ = o.Add(k, "\x00 another value \x00")
+				case i == 0 && variant == 1:
+					_ = o.Add(k+"\x00renamed", n)
+				default:
+					_ = o.Add(k, n)
+				}
+				i++
+			}
+			if i > 0 && a.Equals(o.ReadOnly()) {
+				issues = append(issues, []string{"Arguments.Equals(copy with one value changed) = true", "Arguments.Equals(copy with one key renamed) = true"}[variant])
+			}
+		}
 	default:
 		return nil
 	}
@@ -543,6 +563,24 @@ func AccessorIssues(t token.Token) []string {
 	}
 	if err := mc.Add("\x00 extra \x00", 1); err == nil && m.Equals(mc.ReadOnly()) {
 		issues = append(issues, "Meta.Equals(clone + one entry) = true")
+	}
+	for variant := 0; variant < 2; variant++ {
+		o := meta.NewMeta()
+		i := 0
+		for k, n := range m.Iter() {
+			switch {
+			case i == 0 && variant == 0:
+				_ = o.Add(k, "\x00 another value \x00")
+			case i == 0 && variant == 1:
+				_ = o.Add(k+"\x00renamed", n)
+			default:
+				_ = o.Add(k, n)
+			}
+			i++
+		}
+		if i > 0 && m.Equals(o.ReadOnly()) {
+			issues = append(issues, []string{"Meta.Equals(copy with one value changed) = true", "Meta.Equals(copy with one key renamed) = true"}[variant])
+		}
 	}
 	return issues
 }
